@@ -127,6 +127,8 @@ func (s Server) Serve(c context.Context, conn network.Conn) (err error) {
 
 		traceCtl        = s.Core.GetTracer()
 		eventsToTrigger *eventStack
+		// traceStarted is true between a DoStart and its matching DoFinish
+		traceStarted bool
 
 		// Use a new variable to hold the standard context to avoid modify the initial
 		// context.
@@ -150,10 +152,14 @@ func (s Server) Serve(c context.Context, conn network.Conn) (err error) {
 				}
 				s.eventStackPool.Put(eventsToTrigger)
 			}
-			if shouldRecordInTraceError(err) {
-				traceCtl.DoFinish(cc, ctx, err)
-			} else {
-				traceCtl.DoFinish(cc, ctx, nil)
+			// No Finish without a Start: the connection may end while waiting for the
+			// next request, after the previous request has been finished already.
+			if traceStarted {
+				if shouldRecordInTraceError(err) {
+					traceCtl.DoFinish(cc, ctx, err)
+				} else {
+					traceCtl.DoFinish(cc, ctx, nil)
+				}
 			}
 		}
 
@@ -212,6 +218,7 @@ func (s Server) Serve(c context.Context, conn network.Conn) (err error) {
 
 		if s.EnableTrace {
 			cc = traceCtl.DoStart(c, ctx)
+			traceStarted = true
 			internalStats.Record(ctx.GetTraceInfo(), stats.ReadHeaderStart, err)
 			eventsToTrigger.push(func(ti traceinfo.TraceInfo, err error) {
 				internalStats.Record(ti, stats.ReadHeaderFinish, err)
@@ -440,6 +447,7 @@ func (s Server) Serve(c context.Context, conn network.Conn) (err error) {
 			} else {
 				traceCtl.DoFinish(cc, ctx, nil)
 			}
+			traceStarted = false
 		}
 
 		ctx.ResetWithoutConn()
